@@ -225,7 +225,7 @@ def check_markdown(rng):
     import shutil
     out = []
     n = rng.choice([1, 2, 3, 4, 6])
-    a, b, c, q = rng.choice([2, 3, 5]), rng.choice([Fraction(1, 2), 4, Fraction(3, 4)]), rng.choice([1, 2]), rng.choice([100, 250, 75])
+    a, b, c, q = rng.choice([2, 3, 5, 12]), rng.choice([Fraction(1, 2), 4, Fraction(3, 4), Fraction(11, 2), Fraction(15, 4), Fraction(25, 12)]), rng.choice([1, 2, 10]), rng.choice([100, 250, 75])
     fmt = lambda x: ("%d/%d" % (x.numerator, x.denominator)) if isinstance(x, Fraction) else str(x)  # noqa
     doc = MD_DOC % dict(n=n, a=fmt(a), b=fmt(b), c=fmt(c), q=q)
     mr = compile_markdown(doc)
